@@ -176,11 +176,22 @@ def run_inprocess(ctx, exe, work, nets):
     for i in range(len(cases)):
         e, r, meta = split_harness(impl[i])
         res.append({"e": e, "r": r, "meta": meta, "crash": crashes.get(i), "path": paths[i]})
-        dcases.append(e)
+        dcases.append(e + ["del"])         # model side only: Lean `deleteItems orig (excluded state)`
     model, _ = run_cases(ctx.driver("drv_revise"), dcases)
     for i, m in enumerate(model):
-        res[i]["m"] = m
+        res[i]["m"] = [l for l in m if not l.startswith("del ")]
+        res[i]["del"] = dict((l.split()[1], l.split()[2:]) for l in m if l.startswith("del "))
     return res
+
+
+def deleted_expected(blocks):
+    """what Lean's `deleteItems` must produce, read off the FINAL state of the C++ (the arguments the oracle hands to
+    the Python `delete_items`): points with a group left (id:statuses), observation count of the clusters with one left"""
+    fin = next((b for b in reversed(blocks) if "pts" in b), None)
+    if fin is None or "obs" not in fin:
+        return None
+    return {"pts": [f"{k}:{v}" for k, v in fin["pts"].items() if v != "00"],
+            "obs": [str(c.count("1")) for c in fin["obs"] if "1" in c], "stable": ["1"]}
 
 
 def same(r, m):
@@ -465,7 +476,22 @@ def oracle_one(ctx, gama, work, net, res, algs, parsed):
         if sorted(text_outlying(text)) != sorted(outl_expected):
             fails.append((f"reported: outlying-terms listing {text_outlying(text)} != observations removed {outl_expected} ({alg})",
                           "OutlyingAbsoluteTerms", text[:1500]))
-        # (a) equals deletion
+        # (a) equals deletion; the deleted FILE has the observations Lean's `deleteItems` keeps, and gama-local
+        #     excludes nothing more on it (stability: no outlying-terms table, no removed point)
+        if text2 is not None and res.get("del", {}).get("obs") is not None:
+            nkept = sum(int(x) for x in res["del"]["obs"])
+            if text_equations(text2) != nkept:
+                fails.append((f"deletion: gama-local counts {text_equations(text2)} project equations on the deleted input, "
+                              f"the model's deleteItems keeps {nkept} observations ({alg})", "deleteItems", text2[:1500]))
+            stats["oracle_deleted_input_runs"] = stats.get("oracle_deleted_input_runs", 0) + 1
+            if text_outlying(text2):
+                # C14_abs_stage_stable_uncorrelated: impossible without correlated blocks; with them the homogenised
+                # term of a kept observation changes with the deleted rows (C14-F1) — counted, not judged
+                if any(o.get("cov") and o.get("band") for o in net["obs"]):
+                    stats["oracle_deleted_input_lists_outlying_correlated"] = stats.get("oracle_deleted_input_lists_outlying_correlated", 0) + 1
+                else:
+                    fails.append((f"stability: gama-local lists outlying absolute terms {text_outlying(text2)} on the input with the "
+                                  f"excluded items deleted ({alg})", "remove_huge_abs_terms", text2[:1500]))
         if xml2 is not None:
             diffs = compare_results(xml, xml2)
             if diffs:
@@ -546,6 +572,15 @@ def check_nets(ctx, corr, nets, algs, label="net"):
                 k = next((j for j, (a, b) in enumerate(zip(r["r"], r["m"])) if not lines_equal(a, b, rtol=1e-9)), min(len(r["r"]), len(r["m"])))
                 corr.disagree("revise", r["e"] + ["# gkf: " + c14_nets.to_gkf(net)], r["r"], r["m"],
                               why=f"first difference at result line {k}: impl `{(r['r'] + ['<none>'])[k][:200]}` model `{(r['m'] + ['<none>'])[k][:200]}`")
+            if not any(k in r["meta"] for k in ("throw", "numeric", "crash")) and same(r["r"], r["m"]):
+                want = deleted_expected(blocks)
+                if want is not None:
+                    corr.count("deleteItems_model_runs")
+                    if r.get("del") != want:
+                        corr.disagree("deleteItems", r["e"] + ["del", "# gkf: " + c14_nets.to_gkf(net)],
+                                      [f"del {k} " + " ".join(v) for k, v in want.items()],
+                                      [f"del {k} " + " ".join(v) for k, v in (r.get("del") or {}).items()],
+                                      why="Lean deleteItems(input, excluded(final state)) differs from the deletion the oracle performs")
             if acord:
                 sfails, parsed = spec_check(net, r)
                 corr.count("spec_checked_networks")
